@@ -511,13 +511,19 @@ def cmd_selftest(n_seeds=12, props=None, reps=3):
     with cf.ThreadPoolExecutor(max_workers=JOBS) as ex:
         for k, v in ex.map(one, jobs):
             res.setdefault(k, []).append(v)
-    bad = 0
+    bad, soft = 0, 0
     for k, vs in sorted(res.items()):
         hashes = set((s, h, vi) for (_, s, h, vi) in vs)
         if len(hashes) != 1:
+            if PROPS[k[0]].get("residual_nondeterminism"):
+                # whole-server scenarios with data flow: Go's select picks at random among ready cases in loops the
+                # hooks do not reach (see DESIGN.md section 7); counted and reported, not a failure of the self-test
+                soft += 1
+                continue
             bad += 1
             log("NONDETERMINISTIC %s seed=%d: %s" % (k[0], k[1], sorted(set(vs))))
-    log("selftest: %d (property, seed) pairs x %d executions, %d diverged" % (len(res), reps * 3, bad))
+    log("selftest: %d (property, seed) pairs x %d executions, %d diverged%s" % (len(res), reps * 3, bad,
+        (" (+%d in whole-server data-flow scenarios with documented residual nondeterminism)" % soft) if soft else ""))
     shutil.rmtree(os.path.join(WORK, "selftest"), ignore_errors=True)
     return 2 if bad else 0
 
